@@ -62,6 +62,22 @@ def box(name, N):
     raise KeyError(name)
 
 
+def n1_bounds(name):
+    """bounds of a one-dimensional box as the user might type them: "Z@int64" / "Z@int32" (integer arrays),
+    "Z@list" (lists of Python ints), "Zc@int32" (-1..1, even sum); any other name: float64 arrays.
+    Returns (lower as floats, upper as floats, lower object, upper object)"""
+    base, _, how = name.partition("@")
+    lo, up = ([-1], [1]) if base == "Zc" else box(base, 1)
+    if how in ("int64", "int32"):
+        a, b = np.array([int(lo[0])], dtype=how), np.array([int(up[0])], dtype=how)
+    elif how == "list":
+        a, b = [int(lo[0])], [int(up[0])]
+    else:
+        a, b = np.array(lo, dtype=np.double), np.array(up, dtype=np.double)
+    return [float(lo[0])], [float(up[0])], a, b
+
+
+N1_EXTRA = ("Z@int64", "Z@list", "Zc@int32", "Z@int32", "E", "D", "S", "T", "U", "B4")
 BOXES = ("B0", "B1", "B2", "B3")
 INT_BOXES = ("Z",)
 # end points whose differences and products are not exactly representable: the cube-to-box map rounds
@@ -120,6 +136,9 @@ class EnvProblem(Problem):
             a, b = tuple(lo), tuple(up)
         elif how == "list":
             a, b = list(lo), list(up)
+        elif how == "intlist":     # whole-number bounds written as plain Python ints
+            a, b = [int(v) for v in lo], [int(v) for v in up]
+            assert a == lo and b == up, "intlist needs whole-number bounds"
         elif how == "column":
             m = np.array([lo, up, lo], dtype=np.double).T.copy()      # columns of a (N, 3) table: strided views
             a, b = m[:, 0], m[:, 1]
@@ -237,7 +256,7 @@ class SolverRun:
                                                                              int_bounds, constraints, discrete)
         self.probe = probe      # read-only queries of solver.evolvent between the calls
         kw = dict(eps=eps, r=r, itersLimit=itersLimit, refineSolution=refine)
-        if spell in ("readonly", "tuple", "list", "column") and problem is None:
+        if spell in ("readonly", "tuple", "list", "column", "intlist") and problem is None:
             self.problem.respell(spell)
         elif spell == "npscalar":
             # the same parameter values as numpy scalars / Python ints, as they come out of a configuration table
